@@ -273,6 +273,18 @@ def decide(pid, tier, seed, P, vres, kres, kmeta, vac, t0, evdir):
                 written = [{'obligation': n, 'contract': 'ensures ' + ct[n]} for n in names if n in ct][:4]
                 samples.append({'backend': 'verus', 'unit': r['unit'], 'obligation': names[0],
                                 'written_out': written, 'all_in_unit': names[:12]})
+            # units whose contract has a clause the verifier cannot express (allocation) carry `oracle_always`: in the thorough
+            # tier the executable contract is evaluated on the real code on EVERY run, not only when the proof stops going through
+            u_ = r.get('_unit_obj')
+            if tier == 'thorough' and u_ is not None and getattr(u_, 'oracle_always', False) and getattr(u_, 'oracle', None):
+                f = {'obligation': '%s/(executable contract)' % r['unit'], 'message': 'executable contract of the unit', 'function': None, 'rendered': ''}
+                path, found = verus_counterexample(r, f, evdir, pid)
+                rec['oracle_always'] = {'found_failing_input': bool(found)}
+                obligations += 1
+                if found:
+                    violations.append({'obligation': f['obligation'] + ' -- the executable contract finds a failing input on the real code', 'replay': path, 'found_input': True, 'message': ''})
+                else:
+                    discharged += 1
         elif r['status'] == 'failed':
             obligations += len(names)
             bad = set()
